@@ -194,6 +194,65 @@ def stepDet (variant : String) (ws : List String) (impl : String) : String :=
         | .ok c' => if implR == some c' then "ok" else "DIFF model=ok"
         | .error _ => if impl == "R=err" then "ok" else "DIFF model=err"
 
+/-! ### C19: what the restored component holds, read back through a second checkpoint -/
+
+def insertPart (kv : String × PartWinCkpt) : List (String × PartWinCkpt) → List (String × PartWinCkpt)
+  | [] => [kv]
+  | x :: xs => if kv.1 < x.1 then kv :: x :: xs else x :: insertPart kv xs
+
+/-- partitions listed by key (the harness prints hash maps sorted) -/
+def canonWC (w : WindowCkpt) : WindowCkpt := { w with partitions := w.partitions.foldr insertPart [] }
+
+
+/-- split the words of a `cut`/`scut` line at the `##` separator -/
+def splitAt2 (ws : List String) : List String × List String :=
+  (ws.takeWhile (· != "##"), (ws.dropWhile (· != "##")).drop 1)
+
+def qeLe (a b : QEntry) : Bool :=
+  a.ms < b.ms || (a.ms == b.ms && (a.sub < b.sub || (a.sub == b.sub &&
+    (a.source < b.source || (a.source == b.source && a.key ≤ b.key)))))
+
+def insertQE (x : QEntry) : List QEntry → List QEntry
+  | [] => [x]
+  | y :: r => if qeLe x y then x :: y :: r else y :: insertQE x r
+
+/-- the expiry queue is a heap: its serialised order is not part of the state -/
+def canonJoin (j : JoinCkpt) : JoinCkpt := { j with expiryQueue := j.expiryQueue.map fun q => q.foldr insertQE [] }
+
+/-- `Run::from_checkpoint` followed by `Run::checkpoint`, on the checkpoint struct: everything comes
+back as it was — in particular the ORDER of the stack, of the Kleene events and of the AND
+branches — except the number of pending negations, which is 0 (`Run.fromCkpt`: `pendingNegs := []`) -/
+def reRun (r : RunCkpt) : RunCkpt := { r with pendingNegationCount := 0 }
+
+def reSase (x : SaseCkpt) : SaseCkpt :=
+  { x with activeRuns := x.activeRuns.map reRun, partitionedRuns := x.partitionedRuns.map fun kv => (kv.1, kv.2.map reRun) }
+
+/-- what `create_checkpoint ∘ restore_checkpoint` must give for checkpoint `c` according to the
+model (`EngineSt.restore` / `EngineSt.ckpt`): the same checkpoint. Lists are compared in order:
+window buffers, per-key join buffers, run stacks. -/
+def reEngine (c : EngineCkpt) : EngineCkpt :=
+  { c with saseStates := c.saseStates.map (fun kv => (kv.1, reSase kv.2)),
+           joinStates := c.joinStates.map (fun kv => (kv.1, canonJoin kv.2)),
+           windowStates := c.windowStates.map (fun kv => (kv.1, canonWC kv.2)) }
+
+def canonEngine (c : EngineCkpt) : EngineCkpt :=
+  { c with joinStates := c.joinStates.map (fun kv => (kv.1, canonJoin kv.2)),
+           windowStates := c.windowStates.map (fun kv => (kv.1, canonWC kv.2)) }
+
+/-- which component of the restored engine differs from the model's prediction -/
+def recheckEngine (c : EngineCkpt) (tree2 : List String) : String :=
+  if tree2 == ["n"] || tree2.isEmpty then "ok" else
+  match (parseWhole tree2).bind decEngine with
+  | none => "BADLINE"
+  | some c2 =>
+    let e := reEngine c
+    let g := canonEngine c2
+    if !(g.windowStates == e.windowStates) then "DIFF the restored engine holds a different window state (buffer order included) than the checkpoint"
+    else if !(g.joinStates == e.joinStates) then "DIFF the restored engine holds a different join buffer (per-key arrival order included) than the checkpoint"
+    else if !(g.saseStates == e.saseStates) then "DIFF the restored engine holds different pattern runs (stack order included) than the checkpoint"
+    else if !(g == e) then "DIFF the restored engine holds a different state (variables, counters, watermarks, distinct, limit) than the checkpoint"
+    else "ok"
+
 /-! ### C19: engine cut lines -/
 
 /-- does the checkpoint hold a run with a non-empty Kleene capture? -/
@@ -207,14 +266,20 @@ def kleeneInSase (x : SaseCkpt) : Bool :=
     match r.kleeneEvents with | some (_ :: _) => true | _ => false
 
 /-- `scut k n tags=… subms=b <SASE checkpoint>`: the same judge for a `SaseEngine` driven through its API -/
-def stepScut (evs : List (Option Event)) (ws : List String) (impl : String) : String :=
+def stepScut (evs : List (Option Event)) (ws0 : List String) (impl : String) : String :=
+  let (ws, tree2) := splitAt2 ws0
   match ws with
   | k :: _n :: tags :: _subms :: tree =>
     match (parseWhole tree).bind decSase with
     | none => "BADLINE"
     | some c =>
       let subms := (evs.take (k.toNat?.getD 0)).any fun oe => match oe with | some e => !e.whole | none => false
-      if impl == "same" then "ok"
+      if impl == "same" then
+        (if tree2 == ["n"] || tree2.isEmpty then "ok" else
+         match (parseWhole tree2).bind decSase with
+         | none => "BADLINE"
+         | some c2 => if c2 == reSase c then "ok"
+                      else "DIFF the restored SaseEngine holds different runs (stack order included) than the checkpoint")
       else
         let tagList := ((tags.drop 5).toString).splitOn ","
         if tagList.contains "kleene-self-ref" && kleeneInSase c && impl.startsWith "diff" then
@@ -238,7 +303,8 @@ def premisesHold (c : EngineCkpt) : Bool :=
 The judge is the property itself (outputs after the cut equal); a failing cut is classified under
 the one listed finding iff the program has a self-referencing Kleene predicate (tag from the
 generator) and the checkpoint at the cut holds a run with a Kleene capture. -/
-def stepCut (evs : List (Option Event)) (ws : List String) (impl : String) : String :=
+def stepCut (evs : List (Option Event)) (ws0 : List String) (impl : String) : String :=
+  let (ws, tree2) := splitAt2 ws0
   match ws with
   | k :: _n :: tags :: _subms :: tree =>
     match (parseWhole tree).bind decEngine with
@@ -251,7 +317,8 @@ def stepCut (evs : List (Option Event)) (ws : List String) (impl : String) : Str
       -- slide > size a fresh window starts its counter at slide - size, a restored one at 0)
       let plainBuf := c.windowStates.any fun kv => kv.2.partitions.isEmpty
       if impl == "same" then
-        (if premisesHold c then "ok" else "DIFF a structural premise of engine_restore does not hold of this engine state")
+        (if !premisesHold c then "DIFF a structural premise of engine_restore does not hold of this engine state"
+         else recheckEngine c tree2)
       else
         let tagList := ((tags.drop 5).toString).splitOn ","
         if tagList.contains "kleene-self-ref" && hasKleeneRun c && impl.startsWith "diff" then
@@ -322,13 +389,6 @@ def freshOfKindE (kind : String) : Option WinSt :=
   if kind == "pCount" then some (.pCount [])
   else if kind == "pSlidingCount" then some (.pSlidingCount [])
   else freshOfKind kind
-
-def insertPart (kv : String × PartWinCkpt) : List (String × PartWinCkpt) → List (String × PartWinCkpt)
-  | [] => [kv]
-  | x :: xs => if kv.1 < x.1 then kv :: x :: xs else x :: insertPart kv xs
-
-/-- partitions listed by key (the harness prints hash maps sorted) -/
-def canonWC (w : WindowCkpt) : WindowCkpt := { w with partitions := w.partitions.foldr insertPart [] }
 
 structure St where
   cfg : WinCfg := {}
@@ -431,7 +491,11 @@ def stepWcut (st : St) (impl : String) : St × String :=
     if impl == "unreadable" || impl == "panic" then (st, s!"JUDGE C19 the window checkpoint is {impl}") else
     let j := wire (encWC a.ckpt)
     let b := (decWC j).map (WinSt.restore a.fresh)
-    ({ st with b := b }, if b.isNone then "DIFF model cannot read its own checkpoint" else verdict (Json.text j) impl)
+    -- `J=… J2=…`: the checkpoint, and the checkpoint the restored window gives (buffer order included)
+    let expected := match b with
+      | some bw => s!"{Json.text j} J2={Json.text (wire (encWC bw.ckpt))}"
+      | none => ""
+    ({ st with b := b }, if b.isNone then "DIFF model cannot read its own checkpoint" else verdict expected impl)
 
 def step (st : St) (line : String) : St × String :=
   let (op, impl?) := splitCase line
@@ -481,7 +545,7 @@ def step (st : St) (line : String) : St × String :=
   | "det" :: variant :: ws => (st, stepDet variant ws impl)
   | "cut" :: ws =>
     let v := stepCut st.evs ws impl
-    (st, if v == "ok" then checkWindowCkpt st ws else v)
+    (st, if v == "ok" then checkWindowCkpt st (splitAt2 ws).1 else v)
   | "scut" :: ws => (st, stepScut st.evs ws impl)
   | [] => (st, "")
   | _ => (st, "BADLINE")
